@@ -24,7 +24,7 @@ inline std::string stateClass(const OSnap& o) {
     c += o.frames.empty() ? "F0" : (anyFilled ? "F+" : "Fe");
     return c;
 }
-inline void inv_C05(const OSnap& o, Sink& out) {
+inline void inv_C05(const OSnap& o, Sink& out, bool declaredThroughApi = true) {
     const GSnap* gp = o.group("POINT"); const GSnap* ga = o.group("ANALOG");
     if (!gp || !ga) { V(out, "C05", "mandatory_group_missing", "POINT or ANALOG group absent"); return; }
     const PSnap* pUsed = gp->find("USED"); const PSnap* pFrames = gp->find("FRAMES"); const PSnap* pRate = gp->find("RATE");
@@ -66,7 +66,9 @@ inline void inv_C05(const OSnap& o, Sink& out) {
         for (auto f : filled) { for (auto& sf : f->subs) if (sf.size() != (size_t)aused) { bad = true; break; } if (bad) break; }
         if (bad) V(out, "C05", "data_channels/USED=" + SI(aused) + "/" + cls, "ANALOG:USED != channels in a sub-frame");
     }
-    // -- label-like lists: one entry per point / channel, in data order
+    // -- label-like lists: one entry per point / channel, in data order (the statement's condition: points and channels declared by name
+    //    through the API; an object loaded from a vendor-style file may legitimately carry a single UNITS string or spare labels)
+    if (!declaredThroughApi) return;
     if (pUsed && !pUsed->ints.empty()) {
         size_t used = (size_t)pUsed->ints[0];
         const PSnap* lab = gp->find("LABELS");
@@ -112,6 +114,12 @@ inline std::string frameDiffKind(const FrSnap& want, const FrSnap& got) {
     for (size_t i = 0; i < want.pts.size(); ++i) if (!want.pts[i].eqXYZ(got.pts[i])) return "point_xyz";
     return "analog";
 }
+// every non-empty stored frame has the same number of points, sub-frames and channels per sub-frame
+inline bool uniformFilled(const OSnap& o) {
+    const FrSnap* ref = nullptr;
+    for (auto& f : o.frames) { if (f.empty()) continue; if (!ref) { ref = &f; } if (f.pts.size() != ref->pts.size() || f.subs.size() != ref->subs.size()) return false; for (auto& sf : f.subs) if (sf.size() != (ref->subs.empty() ? 0 : ref->subs[0].size())) return false; }
+    return true;
+}
 inline void tr_C06(const WSnap& pre, const CallInfo& ci, Outcome oc, const WSnap& post, Sink& out, const char* prop = "C06") {
     if (oc != OK) return;
     if (ci.kind == K_REG_BUILD && ci.dev == "intent" && ci.reg >= 0 && post.regset[ci.reg]) {   // the caller's own frame, assembled point by point
@@ -132,6 +140,8 @@ inline void tr_C06(const WSnap& pre, const CallInfo& ci, Outcome oc, const WSnap
         if (!d.empty()) V(out, "C06", "target_content/" + mode + "/" + d, "stored target frame differs from the given frame");
         for (size_t i = 0; i < n; ++i) if (i != tgt) { std::string e = frameDiffKind(pre.o.frames[i], post.o.frames[i]); if (!e.empty()) { V(out, "C06", "other_frame_changed/" + mode + "/" + e, "frame " + S(i) + " changed while target was " + S(tgt)); break; } }
         for (size_t i = n; i < tgt; ++i) if (!post.o.frames[i].empty()) { V(out, "C06", "gap_not_empty/" + mode, "frame " + S(i) + " in the gap is not empty"); break; }
+    } else if ((ci.kind == K_COL_POINT || ci.kind == K_COL_ANALOG || ci.kind == K_POINT_NAME || ci.kind == K_ANALOG_NAME) && !uniformFilled(pre.o)) {
+        return;   // the filled frames already disagree in shape (an undocumented deviation was accepted earlier): "exactly that one column" is not defined
     } else if (ci.kind == K_COL_POINT || ci.kind == K_COL_ANALOG) {
         std::string what = ci.kind == K_COL_POINT ? "point" : "analog";
         if (post.o.frames.size() != n) { V(out, "C06", "column/" + what + "/frame_count", ""); return; }
